@@ -13,7 +13,7 @@ import time
 from concurrent.futures import ThreadPoolExecutor
 from pathlib import Path
 
-VERIF = Path('/verif')
+VERIF = Path(os.environ.get('VERIF_ROOT', '/verif'))
 REPO = Path('/repo')
 COQ = VERIF / 'coq'
 BUILD = VERIF / 'build'
